@@ -23,7 +23,7 @@ from mindsdb_sql.parser.dialects.mindsdb.lexer import MindsDBLexer
 from mindsdb_sql.parser.dialects.mindsdb.retrain_predictor import RetrainPredictor
 from mindsdb_sql.parser.dialects.mindsdb.finetune_predictor import FinetunePredictor
 from mindsdb_sql.parser.logger import ParserLogger
-from mindsdb_sql.parser.utils import ensure_select_keyword_order, JoinType, tokens_to_string
+from mindsdb_sql.parser.utils import ensure_select_keyword_order, JoinType, tokens_to_string, unescape_string
 
 all_tokens_list = MindsDBLexer.tokens.copy()
 all_tokens_list.remove('RPAREN')
@@ -1890,13 +1890,11 @@ class MindsDBParser(Parser):
 
     @_('QUOTE_STRING')
     def quote_string(self, p):
-        value = p[0].replace('\\"', '"').replace("\\'", "'").replace("''", "'")
-        return value.strip('\'')
+        return unescape_string(p[0][1:-1], "'")
 
     @_('DQUOTE_STRING')
     def dquote_string(self, p):
-        value = p[0].replace('\\"', '"').replace("\\'", "'")
-        return value.strip('\"')
+        return unescape_string(p[0][1:-1], '"')
 
     # for raw query
 
